@@ -302,6 +302,9 @@ func (bucket *Bucket) dropCollection(name sgbucket.DataStoreNameImpl) error {
 		c.close()
 		delete(bucket.collections, name)
 	}
+	for _, feed := range bucket.collectionFeeds[name] {
+		feed.close() // (the feed list is shared by all handles; this handle need not have opened the collection)
+	}
 
 	_, err := bucket._db().Exec(`DELETE FROM collections WHERE scope=? AND name=?`, name.ScopeName(), name.CollectionName())
 	if err != nil {
